@@ -68,7 +68,7 @@ def gen_cases(run, module, consts, name, simulate=None, depth=None, seed=None, w
     return cases
 
 
-def replay(run, cmd, cases, label, idle_timeout=8.0):
+def replay(run, cmd, cases, label, idle_timeout=25.0):
     """returns number of executed steps"""
     d = workdir("replay-" + label)
     path = os.path.join(d, "cases.ndjson")
